@@ -55,6 +55,8 @@ type Check struct {
 	// are not executed (resume after a crash).
 	EnumPar   func(tier string, part, parts, skip int, deadline time.Time, note func(idx int, desc string)) *EnumResult
 	EnumParts map[string]int
+	// MSpecs are Mode M (explicit-state BFS) explorations.
+	MSpecs func(tier string) []*mc.MSpec
 	// Also lists properties whose violations, when they occur in this
 	// check's own scenarios, are violations of this property too.
 	Also []string
@@ -79,10 +81,16 @@ type WorkItem struct {
 	Parts    int      `json:"parts,omitempty"`
 	Skip     int      `json:"skip,omitempty"`
 	Deadline int64    `json:"deadline,omitempty"`
+	MSpec    string   `json:"mspec,omitempty"`
+	MPath    []string `json:"mpath,omitempty"`
 }
 
 // WorkResult is a worker's answer.
 type WorkResult struct {
+	MKey    string      `json:"mkey,omitempty"`
+	MSucc   []mc.MSucc  `json:"msucc,omitempty"`
+	MOK     bool        `json:"mok,omitempty"`
+	MExecs  int         `json:"mexecs,omitempty"`
 	Stats   *mc.Stats   `json:"stats"`
 	Enum    *EnumResult `json:"enum,omitempty"`
 	Tainted bool        `json:"tainted,omitempty"`
@@ -115,6 +123,36 @@ func Worker() {
 			return
 		}
 		c := Registry[it.Prop]
+		filter := func(v *mc.Violation) bool {
+			if v.Prop == it.Prop || v.Prop == "*" {
+				return true
+			}
+			for _, a := range c.Also {
+				if v.Prop == a {
+					v.Kind = v.Prop + ":" + v.Kind
+					v.Prop = it.Prop
+					return true
+				}
+			}
+			return false
+		}
+		if it.MSpec != "" {
+			var spec *mc.MSpec
+			for _, m := range c.MSpecs(it.Tier) {
+				if m.Name == it.MSpec {
+					spec = m
+				}
+			}
+			b := []byte(fmt.Sprintf("M:%s\n%s\n", it.MSpec, strings.Join(it.MPath, "\n")))
+			cur.Truncate(0)
+			cur.WriteAt(b, 0)
+			succ, key, ok, execs := spec.Expand(it.MPath, filter)
+			rb, _ := json.Marshal(WorkResult{MKey: key, MSucc: succ, MOK: ok, MExecs: execs, Tainted: mc.Tainted})
+			out.Write(rb)
+			out.WriteByte('\n')
+			out.Flush()
+			continue
+		}
 		if it.Enum {
 			r := c.EnumPar(it.Tier, it.Part, it.Parts, it.Skip, time.Unix(it.Deadline, 0), func(idx int, desc string) {
 				b := []byte(fmt.Sprintf("%d\n%s\n", idx, desc))
@@ -313,6 +351,35 @@ func RunCheck(prop, tier string) int {
 		r := c.Enum(tier, deadline)
 		mergeEnum(cov, r, c, prop, tier, &findings, &exhaustive)
 	}
+	if c.MSpecs != nil {
+		for _, spec := range c.MSpecs(tier) {
+			rep, f := runMSpec(c, tier, spec, deadline)
+			findings = append(findings, f...)
+			if !rep.Complete {
+				exhaustive = false
+			}
+			ms, _ := cov["mode_m"].([]mReport)
+			cov["mode_m"] = append(ms, rep)
+			st, _ := cov["states"].(int)
+			cov["states"] = st + rep.States
+			tr, _ := cov["transitions"].(int)
+			cov["transitions"] = tr + rep.Transitions
+			tv, _ := cov["traces_validated_against_impl"].(int)
+			cov["traces_validated_against_impl"] = tv + rep.Transitions
+			ev, _ := cov["evaluations"].(int)
+			cov["evaluations"] = ev + rep.Executions
+			if rule, ok := cov["rule"].(string); ok && !strings.Contains(rule, "Mode M") {
+				cov["rule"] = rule + " | Mode M: breadth-first explicit-state search; a transition is one environment action (client request, answer with each outcome, event, timer phase, disconnect) followed by a run to internal quiescence on the real Service; states are canonical snapshots (gateway + pending requests + peer models), successors are built by replaying the shortest path on a fresh gateway; every successor gets a drain probe with the end-of-run oracles"
+			}
+			if len(rep.Sample) > 0 {
+				var samples []interface{}
+				if s, ok := cov["samples"].([]interface{}); ok {
+					samples = s
+				}
+				cov["samples"] = append(samples, rep.Sample)
+			}
+		}
+	}
 	if c.EnumPar != nil {
 		r := runEnumPar(c, tier, deadline)
 		mergeEnum(cov, r, c, prop, tier, &findings, &exhaustive)
@@ -336,6 +403,7 @@ func RunCheck(prop, tier string) int {
 		isKnown := false
 		for _, k := range known {
 			if k.matches(f) {
+				writeReplay(f) // kept for bin/check --replay and for pinning under replays/known
 				knownLines = append(knownLines, fmt.Sprintf("KNOWN-FINDING: property=%s %s [%s in %s]", prop, k.What, f.Kind, f.Scenario))
 				isKnown = true
 				break
@@ -524,6 +592,144 @@ func runEnumPar(c *Check, tier string, deadline time.Time) *EnumResult {
 	}
 	wg.Wait()
 	return total
+}
+
+type mReport struct {
+	Name        string   `json:"name"`
+	Depth       int      `json:"depth_completed"`
+	States      int      `json:"states"`
+	Transitions int      `json:"transitions"`
+	Executions  int      `json:"executions"`
+	Final       int      `json:"final_states"`
+	Complete    bool     `json:"complete"`
+	Fixpoint    bool     `json:"fixpoint"`
+	Sample      []string `json:"sample_path,omitempty"`
+}
+
+// runMSpec is the Mode M search: breadth-first by depth over canonical states.
+func runMSpec(c *Check, tier string, spec *mc.MSpec, deadline time.Time) (mReport, []Finding) {
+	rep := mReport{Name: spec.Name, Complete: true}
+	maxDepth := spec.MaxDepth[tier]
+	if maxDepth == 0 {
+		maxDepth = 5
+	}
+	nw := runtime.NumCPU()
+	if nw > 16 {
+		nw = 16
+	}
+	seen := map[string]bool{}
+	var findings []Finding
+	frontier := [][]string{nil}
+	type res struct {
+		path []string
+		r    WorkResult
+		err  bool
+	}
+	for depth := 0; depth < maxDepth && len(frontier) > 0; depth++ {
+		if time.Now().After(deadline) {
+			rep.Complete = false
+			break
+		}
+		in := make(chan []string, len(frontier))
+		for _, p := range frontier {
+			in <- p
+		}
+		close(in)
+		outc := make(chan res, len(frontier))
+		var wg sync.WaitGroup
+		for k := 0; k < nw && k < len(frontier); k++ {
+			wg.Add(1)
+			go func() {
+				defer wg.Done()
+				var w *worker
+				defer func() {
+					if w != nil {
+						w.stop()
+					}
+				}()
+				for p := range in {
+					if time.Now().After(deadline) {
+						outc <- res{path: p, err: true}
+						continue
+					}
+					if w == nil {
+						var err error
+						if w, err = startWorker(); err != nil {
+							panic(err)
+						}
+					}
+					b, _ := json.Marshal(WorkItem{Prop: c.Prop, Tier: tier, MSpec: spec.Name, MPath: p})
+					w.in.Write(b)
+					w.in.WriteByte('\n')
+					w.in.Flush()
+					line, err := w.out.ReadBytes('\n')
+					if err != nil {
+						w.cmd.Wait()
+						eb, _ := os.ReadFile(w.errPath)
+						msg := string(eb)
+						if i := strings.Index(msg, "\n\ngoroutine"); i > 0 {
+							msg = msg[:i]
+						}
+						if len(msg) > 500 {
+							msg = msg[:500]
+						}
+						outc <- res{path: p, err: true, r: WorkResult{MSucc: []mc.MSucc{{Action: "?", Viol: []mc.Violation{{Prop: c.Prop, Kind: "crash:" + crashClass(string(eb)), Msg: "gateway process terminated while expanding this state: " + strings.TrimSpace(msg)}}}}}}
+						w.stop()
+						w = nil
+						continue
+					}
+					var r WorkResult
+					json.Unmarshal(line, &r)
+					if r.Tainted {
+						w.stop()
+						w = nil
+					}
+					outc <- res{path: p, r: r, err: !r.MOK}
+				}
+			}()
+		}
+		wg.Wait()
+		close(outc)
+		var next [][]string
+		var all []res
+		for r := range outc {
+			all = append(all, r)
+		}
+		sort.Slice(all, func(i, j int) bool { return strings.Join(all[i].path, "\x00") < strings.Join(all[j].path, "\x00") })
+		for _, r := range all {
+			rep.Executions += r.r.MExecs
+			if r.err && len(r.r.MSucc) == 0 {
+				rep.Complete = false
+				continue
+			}
+			if depth == 0 && r.r.MKey != "" {
+				seen[r.r.MKey] = true
+			}
+			for _, su := range r.r.MSucc {
+				rep.Transitions++
+				np := append(append([]string(nil), r.path...), su.Action)
+				for _, v := range su.Viol {
+					findings = append(findings, Finding{Prop: c.Prop, Kind: v.Kind, Msg: v.Msg, Scenario: "M:" + spec.Name, Tier: tier, Devs: len(np), Schedule: np})
+				}
+				if su.Key == "" || seen[su.Key] {
+					continue
+				}
+				seen[su.Key] = true
+				if su.Final {
+					rep.Final++
+				}
+				next = append(next, np)
+				if len(np) >= 4 && len(rep.Sample) == 0 {
+					rep.Sample = np
+				}
+			}
+		}
+		rep.Depth = depth + 1
+		frontier = next
+	}
+	rep.States = len(seen)
+	rep.Fixpoint = len(frontier) == 0 && rep.Complete
+	return rep, findings
 }
 
 func writeReplay(f *Finding) string {
